@@ -323,6 +323,31 @@ def argsOK (fs : List Expr) (args : List (Expr × Ty)) : Bool :=
     | some rb => fitsType a.2 rb
     | none => false)
 
+/-- the facts at the top of a branch / a loop body guarded by `c`: the condition is
+appended unless it is a constant (`if n.Condition().ConstValue() == nil`) -/
+def condFacts (fs : List Expr) (c : Expr) : List Expr :=
+  if (constVal c).isNone then appendFactA fs false c else fs
+
+/-- the facts at the top of the else part: the inverted condition; `none`: `invert` fails -/
+def invFacts (fs : List Expr) (c : Expr) : Option (List Expr) :=
+  if (constVal c).isNone then (invert c).map (appendFactA fs false) else some fs
+
+/-- the branches that take part in the reconciliation after an `if` -/
+def ifBranches (t e : FStmt) (ft' fe' : List Expr) : List (List Expr) :=
+  (if terminates t then [] else [ft']) ++ (if !e.isSkip && terminates e then [] else [fe'])
+
+/-- `bcheckWhile`, "Check the post conditions on exit, assuming only the pre and inv
+conditions and the inverted while condition" (skipped for `while true`) -/
+def postOK (spec : LoopSpec) (c : Expr) : Bool :=
+  if constVal c == some 1 then true
+  else
+    match invert c with
+    | none => false
+    | some ic => (checkAsserts (appendFactA (assumeAll (nonPost spec)) false ic) (onlyPost spec)).isSome
+
+/-- the facts at the top of a loop body: pre + inv and the loop condition -/
+def bodyFacts (spec : LoopSpec) (c : Expr) : List Expr := condFacts (assumeAll (nonPost spec)) c
+
 /-- `bcheckStatement` / `bcheckBlock` -/
 def checkS (loops : List LoopSpec) (fs : List Expr) : FStmt → Option (List Expr)
   | .skip => some fs
@@ -336,39 +361,30 @@ def checkS (loops : List LoopSpec) (fs : List Expr) : FStmt → Option (List Exp
     match bcheck fs false c with
     | none => none
     | some _ =>
-      let ft := if (constVal c).isNone then appendFactA fs false c else fs
-      match checkS loops ft t with
+      match checkS loops (condFacts fs c) t with
       | none => none
       | some ft' =>
-        match (if (constVal c).isNone then (invert c).map (appendFactA fs false) else some fs) with
+        match invFacts fs c with
         | none => none
         | some fe =>
           match checkS loops fe e with
           | none => none
-          | some fe' =>
-            some (unify ((if terminates t then [] else [ft']) ++
-                         (if !e.isSkip && terminates e then [] else [fe'])))
+          | some fe' => some (unify (ifBranches t e ft' fe'))
   | .while spec c body =>
     match checkAsserts fs (nonPost spec) with
     | none => none
     | some _ =>
-      let hd := assumeAll (nonPost spec)
-      match bcheck hd false c with
+      match bcheck (assumeAll (nonPost spec)) false c with
       | none => none
       | some _ =>
-        let okPost : Bool :=
-          if constVal c == some 1 then true
-          else
-            match invert c with
-            | none => false
-            | some ic => (checkAsserts (appendFactA hd false ic) (onlyPost spec)).isSome
-        let okBody : Bool :=
-          if constVal c == some 0 then true
-          else
-            match checkS (spec :: loops) (if (constVal c).isNone then appendFactA hd false c else hd) body with
-            | none => false
-            | some fe => terminates body || (checkAsserts fe (nonPost spec)).isSome
-        if okPost && okBody then some (assumeAll (nonPre spec)) else none
+        if !postOK spec c then none
+        else if constVal c == some 0 then some (assumeAll (nonPre spec))
+        else
+          match checkS (spec :: loops) (bodyFacts spec c) body with
+          | none => none
+          | some fe =>
+            if terminates body || (checkAsserts fe (nonPost spec)).isSome
+            then some (assumeAll (nonPre spec)) else none
   | .jump isBreak k =>
     match loops[k]? with
     | none => none
